@@ -1246,6 +1246,10 @@ class TimeGPSWeekSec(TimeFormat):
             if val.ndim == 2 and val.shape[-1] == cls.ndim:
                 week = val[:, 0]
                 sec = val[:, 1]
+            elif val.ndim == 1 and val.shape[-1] == cls.ndim:
+                # One epoch given as (week, seconds, day), as stored on a scalar time object
+                week = val[0]
+                sec = val[1]
             else:
                 raise ValueError(f"val2 should be seconds (not {val2}) for format {cls.fmt}")
         else:
